@@ -7,6 +7,7 @@ import (
 	"fmt"
 	"go/ast"
 	"go/constant"
+	"os"
 	"go/token"
 	"go/types"
 	"strings"
@@ -52,6 +53,20 @@ type Exec struct {
 	modelSort map[string]string
 	modelType map[string]types.Type
 	prov      map[string]string
+	tsubst    map[string]types.Type // type arguments of the generic function being inlined
+}
+
+func (x *Exec) sourceLine(n ast.Node) string {
+	ps := x.prog.Fset.Position(n.Pos())
+	b, err := os.ReadFile(ps.Filename)
+	if err != nil {
+		return ""
+	}
+	ls := strings.Split(string(b), "\n")
+	if ps.Line-1 < len(ls) {
+		return ls[ps.Line-1]
+	}
+	return ""
 }
 
 func (x *Exec) undecide(f string, a ...any) {
@@ -65,6 +80,10 @@ func (x *Exec) oblige(st *State, kind, name, goal string, pos ast.Node) *Obligat
 	if x.unit.Spec != nil {
 		for _, ao := range x.unit.Spec.AssumeObl {
 			pat, reason, _ := strings.Cut(ao, " because ")
+			pat, anchor, hasAnchor := strings.Cut(pat, " at ")
+			if hasAnchor && (pos == nil || !strings.Contains(x.sourceLine(pos), strings.Trim(strings.TrimSpace(anchor), "`"))) {
+				continue
+			}
 			if strings.HasPrefix(name, strings.TrimSpace(pat)) {
 				x.assumed["obligation "+x.unit.Name+":"+name+" is assumed, not proved: "+reason] = true
 				return nil
@@ -94,6 +113,10 @@ func (x *Exec) fieldVer(st *State, key, valSort string) *HeapVer {
 		v = &HeapVer{term: name, sort: arraySort(valSort), valSort: valSort}
 		st.fields[key] = v
 		x.entry.fields[key] = v
+		if st.astEpoch > 0 && astInitKeys[key] {
+			x.havocASTKey(st, key, valSort)
+			v = st.fields[key]
+		}
 	}
 	return v
 }
@@ -842,6 +865,9 @@ func (x *Exec) unboxAs(st *State, v Term, tt types.Type) (Term, string) {
 
 // typeAssert returns the comma-ok pair; the caller adds the obligation for the single-value form.
 func (x *Exec) typeAssert(st *State, v Term, tt types.Type) (Term, string) {
+	if tp, ok := tt.(*types.TypeParam); ok && x.tsubst[tp.Obj().Name()] != nil {
+		tt = x.tsubst[tp.Obj().Name()]
+	}
 	if tp, ok := tt.(*types.TypeParam); ok {
 		// x.(P): succeeds iff the dynamic type is P's type argument; for an
 		// interface type argument it fails exactly on the nil interface.
@@ -924,6 +950,20 @@ func (x *Exec) havocLoop(st *State, body ast.Node, extra []*types.Var) {
 	if heap && x.loopIsPure(body) {
 		heap = false
 	}
+	if heap && x.loopOnlyAST(body) {
+		// the calls in the loop only allocate and rewrite AST initialisers of sub-statements
+		clk := st.clk
+		nclk := x.d.fresh("clk", "Int")
+		st.assume(fmt.Sprintf("(<= %s %s)", clk, nclk))
+		st.clk = nclk
+		for _, key := range sortedKeys(st.fields) {
+			if astInitKeys[key] {
+				x.havocASTKey(st, key, st.fields[key].valSort)
+			}
+		}
+		st.astEpoch++
+		heap = false
+	}
 	if heap {
 		clk := st.clk
 		nclk := x.d.fresh("clk", "Int")
@@ -996,6 +1036,62 @@ func (x *Exec) loopIsPure(body ast.Node) bool {
 		return true
 	})
 	return pure
+}
+
+// loopOnlyAST: like loopIsPure, but callees may carry the single modifies location AST.
+func (x *Exec) loopOnlyAST(body ast.Node) bool {
+	ok := true
+	ast.Inspect(body, func(n ast.Node) bool {
+		if !ok {
+			return false
+		}
+		switch y := n.(type) {
+		case *ast.FuncLit:
+			return false
+		case *ast.AssignStmt:
+			for _, l := range y.Lhs {
+				if _, isId := ast.Unparen(l).(*ast.Ident); !isId {
+					ok = false
+				}
+			}
+		case *ast.CallExpr:
+			if tv, isT := x.info.Types[y.Fun]; isT && tv.IsType() {
+				return true
+			}
+			var fn *types.Func
+			switch f := ast.Unparen(y.Fun).(type) {
+			case *ast.Ident:
+				if _, isB := x.info.Uses[f].(*types.Builtin); isB {
+					return true
+				}
+				fn, _ = x.info.Uses[f].(*types.Func)
+			case *ast.SelectorExpr:
+				if sel := x.info.Selections[f]; sel != nil {
+					fn, _ = sel.Obj().(*types.Func)
+				} else {
+					fn, _ = x.info.Uses[f.Sel].(*types.Func)
+				}
+			}
+			if fn == nil {
+				ok = false
+				return false
+			}
+			spec, _ := x.specOfFunc(fn.Origin())
+			if spec == nil || len(spec.clauses("refines")) > 0 {
+				ok = false
+				return false
+			}
+			for _, m := range spec.clauses("modifies") {
+				for _, loc := range m.Locs {
+					if id, isId := loc.(*cxIdent); !isId || id.Name != "AST" {
+						ok = false
+					}
+				}
+			}
+		}
+		return true
+	})
+	return ok
 }
 
 func (x *Exec) forStmt(st *State, s *ast.ForStmt, fr *frame, k func(*State)) {
@@ -1337,6 +1433,9 @@ func (x *Exec) unary(st *State, e *ast.UnaryExpr, k func(*State, Term)) {
 				// the cell initially holds the field's value
 				fs := x.d.sortOf(f.Type())
 				cur := x.readField(st, key, fs, base.S)
+				cur.T = f.Type()
+				x.ifaceWellTyped(st, cur, f.Type())
+				x.rigidLinkField(st, key, base.S, cur)
 				x.writeField(st, "cell:"+fs, fs, p.S, cur.S)
 				k(st, p)
 			})
@@ -1550,7 +1649,9 @@ func (x *Exec) selector(st *State, e *ast.SelectorExpr, k func(*State, Term)) {
 	case types.MethodVal:
 		x.expr(st, e.X, func(st *State, recv Term) {
 			fn := x.d.fun("methodval_"+sanitizeSym(sel.Obj().Name()), []string{recv.Sort}, "Fun")
-			k(st, Term{S: fmt.Sprintf("(%s %s)", fn, recv.S), Sort: "Fun", T: x.info.TypeOf(e)})
+			mv := fmt.Sprintf("(%s %s)", fn, recv.S)
+			st.assume(sNot(sEq(mv, "nilF")))
+			k(st, Term{S: mv, Sort: "Fun", T: x.info.TypeOf(e)})
 		})
 	default:
 		x.undecide("unsupported selection at %s", x.prog.pos(e))
